@@ -192,7 +192,13 @@ class SymInterp:
             raise _Return(self.ev(s.value, env, fi) if s.value is not None else None)
         if isinstance(s, ast.Raise):
             raise AnalysisError("E4: %s: symbolic execution reaches `%s`" % (fi.where(s), txt(s)[:60]))
-        if isinstance(s, (ast.Pass, ast.Import, ast.ImportFrom)):
+        if isinstance(s, (ast.Pass, ast.Import, ast.ImportFrom, ast.Assert, ast.Global)):
+            return  # an assertion is an invariant of the code, not part of the value it computes
+        if isinstance(s, ast.For):
+            for val in self.iterate(self.ev(s.iter, env, fi), fi, s.iter):
+                self.assign(s.target, val, env, fi)
+                self.block(s.body, env, fi)
+            self.block(s.orelse, env, fi)
             return
         raise AnalysisError("E4: %s: statement kind %s is not handled" % (fi.where(s), type(s).__name__))
 
